@@ -187,12 +187,13 @@ namespace rkcommon {
     template <typename T>
     std::shared_ptr<utility::ArrayView<T>> BufferReader::getView(size_t count)
     {
-      const size_t size = count * sizeof(T);
-
-      if (cursor + size > buffer->size()) {
+      // overflow-safe: neither 'count * sizeof(T)' nor 'cursor + size' may wrap
+      if (cursor > buffer->size()
+          || count > (buffer->size() - cursor) / sizeof(T)) {
         throw std::runtime_error("Attempt to read past end of BufferReader!");
       }
 
+      const size_t size = count * sizeof(T);
       auto view = std::make_shared<utility::ArrayView<T>>(buffer->begin() + cursor, size);
       cursor += size;
       return view;
